@@ -30,6 +30,9 @@ EXTENDS Naturals, Sequences, FiniteSets, TLC, Json
 CONSTANTS Mode,      \* "honest" (C01) | "hostile" (C05)
           MaxPkts,   \* honest: packets per behaviour
           MaxLen,    \* honest: abstract body lengths 0..MaxLen
+          BodyClasses, \* honest: body content classes of payload packets ({"any"}: the driver picks one, seeded;
+                     \* else e.g. "zeros", "random", "gzmagic", "gzstream", "hdrlike" - content that must come back
+                     \* identical with compression on or off: the contract never looks inside a body)
           MaxStall,  \* empty reads the transport may inject per behaviour
           Chunking,  \* "all": every n in 1..min(want, avail) | "max": always min(want, avail)
           Dev,       \* see above
@@ -62,33 +65,45 @@ Bound == 6          \* C05: 6 * MaxPacketBodySize (+ 1 MiB constant slack, see F
 \* sc   declared size class: "0", "S" small, "MAX" = limit, "OVER" = limit+1, "U32" = 2^32-1
 \* nb   declared body length in abstract bytes;  av = body bytes really on the wire
 \* gz   (z only) "ok" output about input size, "big" small input inflating to just below the
-\*      limit, "bomb" inflating beyond the limit, "corrupt" bad header, "trunc" truncated member
-\* pay  content class: "empty", "bad" (not JSON), "wrong" (JSON of another shape), "good", "huge"
+\*      limit, "bomb" inflating beyond the limit, "forged" the same with a forged small ISIZE
+\*      trailer, "multi" a member inflating beyond the limit followed by a tiny member,
+\*      "corrupt" bad header, "trunc" truncated member
+\* pay  content class: "empty", "bad" (not JSON), "wrong" (JSON of another shape), "good", "huge",
+\*      and the JSON edge forms "null" (null, also inside white space), "scalar" (true, 0, "str"),
+\*      "emptyobj" ({}), "array" ([], [{}]), "nested" (nesting deeper than any decoder allows),
+\*      "dupkeys" (duplicate members), "bignum" (numbers outside every Go type), "badutf8"
 U(sc) == IF sc = "MAX" THEN 1 ELSE 0
+Bombs == {"bomb", "forged", "multi"}          \* gzip bodies whose output exceeds the limit
+Edge  == {"null", "scalar", "emptyobj", "array", "nested", "dupkeys", "bignum", "badutf8"}
+\* json.Unmarshal into packet.CommandPacket fails for these (the reader decodes command kinds itself)
+NotACommand == {"empty", "bad", "wrong", "scalar", "array", "nested", "bignum"}
 OutU(fr) == IF ~fr.z THEN U(fr.sc)
-            ELSE CASE fr.gz = "big" -> 1 [] fr.gz = "bomb" -> 10 [] OTHER -> U(fr.sc)
+            ELSE CASE fr.gz = "big" -> 1 [] fr.gz \in Bombs -> 10 [] OTHER -> U(fr.sc)
 
 \* what WritePacket lays on the wire for packet [k, z, len]
-WriterFrame(k, z, len) ==
+WriterFrame(k, z, len, c) ==
   LET noLen == k # "HB" /\ len = 0 /\ "emptyNoLen" \in Dev
       wl    == IF k = "HB" \/ noLen THEN 0 ELSE len + (IF z THEN 1 ELSE 0)   \* gzip adds a header
-  IN [k |-> k, z |-> z, e |-> FALSE, len |-> len,
+  IN [k |-> k, z |-> z, e |-> FALSE, len |-> len, c |-> c,
       hdr |-> IF k = "HB" \/ noLen THEN 0 ELSE 4,
       sc |-> IF wl = 0 THEN "0" ELSE "S", nb |-> wl, av |-> wl,
       gz |-> IF z THEN "ok" ELSE "na", pay |-> IF len = 0 THEN "empty" ELSE "good"]
 
-HonestPkts == [k : {"HB"}, z : BOOLEAN, len : {0}] \cup [k : {"CMD", "PAY"}, z : BOOLEAN, len : 0..MaxLen]
+HonestPkts ==      [k : {"HB"}, z : BOOLEAN, len : {0}, c : {"none"}]
+              \cup [k : {"CMD"}, z : BOOLEAN, len : 0..MaxLen, c : {"text"}]
+              \cup [k : {"PAY"}, z : BOOLEAN, len : {0}, c : {"none"}]
+              \cup [k : {"PAY"}, z : BOOLEAN, len : 1..MaxLen, c : BodyClasses]
 
 Kinds == {"HB", "CMD", "RESP", "HS", "TOPEN", "PAY", "UNK"}
 F(k, z, e, hdr, sc, av, gz, pay) ==
-  [k |-> k, z |-> z, e |-> e, len |-> 0, hdr |-> hdr, sc |-> sc, nb |-> IF sc = "0" THEN 0 ELSE 2,
+  [k |-> k, z |-> z, e |-> e, len |-> 0, c |-> "none", hdr |-> hdr, sc |-> sc, nb |-> IF sc = "0" THEN 0 ELSE 2,
    av |-> av, gz |-> gz, pay |-> pay]
 NonHB == Kinds \ {"HB"}
 \* content of a complete body: (gzip class, payload class) pairs that make sense for a size class
 Contents(z, sc) ==
-  IF ~z THEN {<<"na", p>> : p \in (IF sc = "MAX" THEN {"bad", "wrong", "good", "huge"} ELSE {"bad", "wrong", "good"})}
-  ELSE {<<"ok", p>> : p \in (IF sc = "MAX" THEN {"bad", "wrong", "good", "huge"} ELSE {"empty", "bad", "wrong", "good"})}
-       \cup {<<g, "bad">> : g \in {"bomb", "corrupt", "trunc"}}
+  IF ~z THEN {<<"na", p>> : p \in (IF sc = "MAX" THEN {"bad", "wrong", "good", "huge"} ELSE {"bad", "wrong", "good"} \cup Edge)}
+  ELSE {<<"ok", p>> : p \in (IF sc = "MAX" THEN {"bad", "wrong", "good", "huge"} ELSE {"empty", "bad", "wrong", "good"} \cup Edge)}
+       \cup {<<g, "bad">> : g \in Bombs \cup {"corrupt", "trunc"}}
        \cup (IF sc = "S" THEN {<<"big", "bad">>, <<"big", "huge">>} ELSE {})
 HostileFrames ==
        {F("HB", z, e, 0, "0", 0, "na", "empty") : z \in BOOLEAN, e \in BOOLEAN}   \* nothing after a heartbeat type is looked at
@@ -116,12 +131,12 @@ Ns(want) == IF Chunking = "max" THEN {Min(want, Avail)} ELSE 1..Min(want, Avail)
 \* the next n wire bytes are exactly bytes j0+1..j0+n of field f of frame id
 Expected(n, f, id, j0) == \A i \in 1..n : LET b == wire[pos + i] IN b.f = f /\ b.id = id /\ b.j = j0 + i
 
-Pk(fr) == [k |-> fr.k, z |-> fr.z, len |-> fr.len]
+Pk(fr) == [k |-> fr.k, z |-> fr.z, len |-> fr.len, c |-> fr.c]
 
 (* ---------------------------------- writer ------------------------------------------------ *)
 Write(p) ==
   /\ Mode = "honest" /\ open /\ Len(sent) < MaxPkts
-  /\ LET fr == WriterFrame(p.k, p.z, p.len) IN
+  /\ LET fr == WriterFrame(p.k, p.z, p.len, p.c) IN
      /\ sent' = Append(sent, fr)
      /\ wire' = wire \o Encode(fr, Len(sent) + 1)
      /\ devs' = IF p.k # "HB" /\ fr.hdr = 0 THEN devs \cup {"emptyNoLen"} ELSE devs
@@ -228,10 +243,10 @@ Post ==
      ELSE IF fr.e THEN Fail(pos, devs, hist) /\ EmitRead("Error")   \* encryption not supported here
      ELSE LET capped == "unboundedInflate" \notin Dev
               a1   == IF fr.z THEN alloc + Inflate(fr, capped) ELSE alloc
-              zerr == fr.z /\ (fr.gz \in {"corrupt", "trunc", "na"} \/ fr.nb = 0 \/ (fr.gz = "bomb" /\ capped))
-              dv   == IF fr.z /\ fr.gz = "bomb" /\ ~capped THEN devs \cup {"unboundedInflate"} ELSE devs
+              zerr == fr.z /\ (fr.gz \in {"corrupt", "trunc", "na"} \/ fr.nb = 0 \/ (fr.gz \in Bombs /\ capped))
+              dv   == IF fr.z /\ fr.gz \in Bombs /\ ~capped THEN devs \cup {"unboundedInflate"} ELSE devs
               a2   == IF fr.k \in {"CMD", "RESP"} /\ ~zerr THEN a1 + OutU(fr) ELSE a1   \* json decode
-              jerr == fr.k \in {"CMD", "RESP"} /\ fr.pay \in {"empty", "bad", "wrong"} /\ Mode = "hostile"   \* json.Unmarshal into CommandPacket
+              jerr == fr.k \in {"CMD", "RESP"} /\ fr.pay \in NotACommand /\ Mode = "hostile"   \* json.Unmarshal into CommandPacket
           IN IF zerr \/ jerr
              THEN Upd([rd EXCEPT !.ph = "Err"], pos, decoded, a2, dv, Append(outs, "Error"), hist) /\ EmitRead("Error")
              ELSE /\ Upd(IF Mode = "hostile" THEN [rd EXCEPT !.ph = "Dispatch"] ELSE Idle, pos,
